@@ -51,9 +51,9 @@ frame: Deltas, Stack (discarding and padding), Standardize with a statistics fil
 norm_var false. A Kaldi matrix without rows has no width, so when the post-processors leave no row (discarding Stack on one
 frame) the Kaldi tool is required to store zero rows.
 
-OPEN (reported): torch tool x STFT frame_style "causal" with frame length > shift x utterances shorter than half the padded
-length: the tool's torch STFT raises (its right reflection supplies at most the signal's own length); that combination is
-not in the plan yet (the Kaldi tool is checked with it, the torch tool with the causal computer whose frame < shift).
+Causal framing with a frame longer than its shift is in the edge sets of BOTH tools: there the right padding of a short
+utterance is longer than the utterance itself (found with these sets: the tool's torch STFT used to raise on such utterances,
+e.g. 25 ms / 10 ms at 8 kHz and 120..139 samples; repaired in /repo 3fbc320).
 
 Not enumerated (outside the property): torch tool x Standardize x zero-frame utterance -- pipeline
 undefined: Standardize.apply rejects empty input.  For the Kaldi tool a zero-frame utterance is only
@@ -1116,11 +1116,7 @@ def _plan(tier, seed):
         ("stft_causal_gabor", "preemph", "deltas", "edge"),
     ]
     kaldi_core[0:0] = edge
-    # torch tool: the causal computer of the edge sets is the one whose frame is shorter than its shift. OPEN, reported:
-    # with frame_style "causal" and frame length > shift the tool's torch STFT raises on utterances shorter than half the
-    # padded length (its right reflection supplies at most the signal's own length), e.g. 25 ms / 10 ms at 8 kHz and
-    # 120..139 samples; that combination (torch x stft_odd_causal x edge) is therefore not in the plan yet
-    torch_core[0:0] = [(("stft_causal_gabor",) + e[1:]) if e[0] == "stft_odd_causal" else e for e in edge]
+    torch_core[0:0] = edge
     kaldi_core += [("si_gabor", "preemph_dither", "deltas", "mixed", SEED0)]
     torch_core += [(None, "dither_dither", "none", "manifest", SEED0)]
     for tool, core in (("kaldi", kaldi_core), ("torch", torch_core)):
@@ -1261,10 +1257,6 @@ def run(tier: str, seed: int) -> dict:
         f"pipeline (post-processors applied to the one frame): kaldi {n_edge['kaldi'][0]}, torch {n_edge['torch'][0]}; exactly "
         f"TWO frames: kaldi {n_edge['kaldi'][1]}, torch {n_edge['torch'][1]}; boundary lengths [first n with 1, 2, 3 frames] "
         f"per computer: {dict(_EDGE)}"
-    )
-    col.note(
-        "OPEN (reported, not in the plan): torch tool x STFT frame_style causal with frame length > shift x utterances shorter "
-        "than half the padded length (e.g. 25 ms / 10 ms at 8 kHz, 120..139 samples): the tool's torch STFT raises"
     )
     col.note(
         "not enumerated: torch tool x Standardize x zero-frame utterance (pipeline undefined: Standardize.apply "
